@@ -175,7 +175,12 @@ func (r *Report) finish() int {
 		}
 		violations++
 		path, reproduced := r.replay(o, replayDir)
-		suffix := ""
+		suffix := " replayed=end-to-end"
+		if o.modular {
+			// reproduced on the real body of the function with its contracted callees replaced by
+			// stubs executing their contracts: the verifier's own (modular) counterexample
+			suffix = " replayed=modular"
+		}
 		if !reproduced {
 			suffix = " no-failing-input-found"
 		}
